@@ -84,6 +84,17 @@ class ExactModel(WitnessModel):
         return r
 
 
+SUPPLIED_WINDOWS: dict = {}
+
+
+def opens_of(ch):
+    return SUPPLIED_WINDOWS[id(ch)][0]
+
+
+def closes_of(ch):
+    return SUPPLIED_WINDOWS[id(ch)][1]
+
+
 class World:
     """One interpretation context: interpreter, model, and helpers to build the package's objects."""
 
@@ -120,9 +131,14 @@ class World:
         return self.it.construct(self.frame_cls, [], {'distance': distance, 'subframes': list(subs)}, None)
 
     def chopper(self, name, distance, opens, closes):
-        o = self.model.array(self.it, [self.scalar(f'{name}_open{k}', SEC, v) for k, v in enumerate(opens)], 'cutout')
-        c = self.model.array(self.it, [self.scalar(f'{name}_close{k}', SEC, v) for k, v in enumerate(closes)], 'cutout')
-        return self.it.construct(self.chop_cls, [], {'distance': distance, 'time_open': o, 'time_close': c}, None)
+        o_items = [self.scalar(f'{name}_open{k}', SEC, v) for k, v in enumerate(opens)]
+        c_items = [self.scalar(f'{name}_close{k}', SEC, v) for k, v in enumerate(closes)]
+        o = self.model.array(self.it, o_items, 'cutout')
+        c = self.model.array(self.it, c_items, 'cutout')
+        ch = self.it.construct(self.chop_cls, [], {'distance': distance, 'time_open': o, 'time_close': c}, None)
+        # the reference model works from the windows that were supplied, not from what the constructed object holds
+        SUPPLIED_WINDOWS[id(ch)] = (o_items, c_items, ch)
+        return ch
 
     def call(self, fi, args, kwargs=None, bound=None):
         """Run one repository function; returns ('return', value) or ('raise', exc_type)."""
@@ -155,6 +171,13 @@ def clip_by_window(w, sub, cut, later):
     if not isinstance(subs, list | tuple) or len(subs) > 1:
         raise AnalysisError(f'Frame.chop with one subframe and one window reports {subs!r}')
     return kind, (subs[0] if subs else None)
+
+
+def frames_snapshot(seq) -> list:
+    """Identity of the frames of a sequence and of the subframes of each (what a caller holding the sequence sees)."""
+    if not isinstance(seq, SObj):
+        return []
+    return [(id(f), tuple(id(s_) for s_ in (f.attrs.get('subframes') or []))) for f in (seq.attrs.get('frames') or []) if isinstance(f, SObj)]
 
 
 def points(sub) -> list:
@@ -198,6 +221,20 @@ def match_polygons(got: list, want: list, val, symbolic: bool):
     if left:
         return False, {'extra_polygon': show_poly(left[0], val), 'expected': [show_poly(w, val) for w in want]}
     return True, {}
+
+
+def match_region(got: list, want: list, val, symbolic: bool):
+    """The reported polygons are the reference polygons (as exact terms where asked), or at least cover exactly the same region
+    (overlapping windows may be reported as one polygon or as several: transmission is membership in the union)."""
+    ok, detail = match_polygons(got, want, val, symbolic)
+    if ok:
+        return ok, detail
+    same, where_ = clip.same_region([clip.numeric(g, val) for g in got], [clip.numeric(w_, val) for w_ in want])
+    if same:
+        return True, {'note': 'other polygons than the reference model lists, covering the same region'}
+    detail = dict(detail)
+    detail['region_differs_at'] = where_
+    return False, detail
 
 
 def run(tier: str) -> Run:
@@ -338,6 +375,8 @@ def run(tier: str) -> Run:
         'window opening exactly on the last vertex (touching)': ([((0, 2, 2, 0), (1, 1, 2, 2))], (8,), (12,)),
         'monochromatic subframe, exactly on one wavelength, cut by a window': ([((0, 4, 4, 0), (2, 2, 2, 2))], (7,), (9,)),
         'windows listed in decreasing time order': ([((0, 4, 4, 0), (1, 1, 3, 3))], (9, 4), (12, 7)),
+        'one window nested in another (a long opening and a short one inside it)': ([((0, 4, 4, 0), (1, 1, 3, 3))], (4, 6), (12, 8)),
+        'overlapping windows': ([((0, 4, 4, 0), (1, 1, 3, 3))], (4, 7), (9, 12)),
         'a window far later listed before the windows that hit': ([((0, 4, 4, 0), (1, 1, 3, 3))], (100, 4, 9), (110, 7, 12)),
     }
     for name, (subs, opens, closes) in scenarios.items():
@@ -351,7 +390,7 @@ def run(tier: str) -> Run:
         want = []
         for s_ in frame.attrs['subframes']:
             moved = clip.shear(points(s_), dc.term - d0.term, alpha())
-            for o_, c_ in zip(items_of(ch.attrs['time_open']), items_of(ch.attrs['time_close']), strict=True):
+            for o_, c_ in zip(opens_of(ch), closes_of(ch), strict=True):
                 poly = clip.window(moved, o_.term, c_.term, val)
                 if clip.dedupe(clip.numeric(poly, val)):
                     want.append(poly)
@@ -360,7 +399,7 @@ def run(tier: str) -> Run:
             continue
         got = [points(s_) for s_ in res.attrs.get('subframes', [])]
         generic = 'exactly on' not in name  # degenerate configurations are compared numerically at the witness
-        ok, detail = match_polygons(got, want, val, symbolic=generic)
+        ok, detail = match_region(got, want, val, symbolic=generic)
         dist_ok = isinstance(res.attrs.get('distance'), SVar) and isinstance(res.attrs['distance'].term, Rat) and res.attrs['distance'].term.eq(dc.term)
         r3.check(ok and dist_ok and bool(want), name, loc(hfi), {**detail, 'distance_is_the_chopper_distance': dist_ok, 'polygons_expected': len(want)}, key=name)
         regs = []
@@ -389,20 +428,23 @@ def run(tier: str) -> Run:
             raise AnalysisError(f'FrameSequence.from_source_pulse: {kind} {seq!r}')
         c1 = w.chopper('C1', w.scalar('dc1', M, 3), (4, 9), (7, 12))
         c2 = w.chopper('C2', w.scalar('dc2', M, 6), (10,), (30,))
-        kind, out = w.call(sfi, [[c1, c2] if order == 'near-first' else [c2, c1]], bound=seq)
-        val = w.val()
         src = points(seq.attrs['frames'][0].attrs['subframes'][0])
         d_src = seq.attrs['frames'][0].attrs['distance'].term
+        before = frames_snapshot(seq)
+        kind, out = w.call(sfi, [[c1, c2] if order == 'near-first' else [c2, c1]], bound=seq)
+        val = w.val()
+        r4.check(frames_snapshot(seq) == before, f'chop leaves the sequence it is applied to as it was [{order}]', loc(sfi),
+                 {'frames_before': len(before), 'frames_after': len(frames_snapshot(seq))}, key='input-sequence')
         stage1 = []
         moved = clip.shear(src, c1.attrs['distance'].term - d_src, alpha())
-        for o_, c_ in zip(items_of(c1.attrs['time_open']), items_of(c1.attrs['time_close']), strict=True):
+        for o_, c_ in zip(opens_of(c1), closes_of(c1), strict=True):
             poly = clip.window(moved, o_.term, c_.term, val)
             if clip.dedupe(clip.numeric(poly, val)):
                 stage1.append(poly)
         stage2 = []
         for poly in stage1:
             moved = clip.shear(poly, c2.attrs['distance'].term - c1.attrs['distance'].term, alpha())
-            for o_, c_ in zip(items_of(c2.attrs['time_open']), items_of(c2.attrs['time_close']), strict=True):
+            for o_, c_ in zip(opens_of(c2), closes_of(c2), strict=True):
                 q = clip.window(moved, o_.term, c_.term, val)
                 if clip.dedupe(clip.numeric(q, val)):
                     stage2.append(q)
@@ -413,8 +455,8 @@ def run(tier: str) -> Run:
         ok = len(frames) == 3
         detail = {'frames': len(frames)}
         if ok:
-            ok1, det1 = match_polygons([points(s_) for s_ in frames[1].attrs['subframes']], stage1, val, True)
-            ok2, det2 = match_polygons([points(s_) for s_ in frames[2].attrs['subframes']], stage2, val, True)
+            ok1, det1 = match_region([points(s_) for s_ in frames[1].attrs['subframes']], stage1, val, True)
+            ok2, det2 = match_region([points(s_) for s_ in frames[2].attrs['subframes']], stage2, val, True)
             ok = ok1 and ok2 and bool(stage2)
             detail = {'after_nearer_chopper': det1, 'after_farther_chopper': det2}
         r4.check(ok, f'chop [{order}]', loc(sfi), detail, key='sorted')
@@ -431,7 +473,7 @@ def run(tier: str) -> Run:
             ok = kind == 'return' and isinstance(fr, SObj)
             detail = {'outcome': kind}
             if ok:
-                ok, detail = match_polygons([points(s_) for s_ in fr.attrs['subframes']], want, val, True)
+                ok, detail = match_region([points(s_) for s_ in fr.attrs['subframes']], want, val, True)
                 ok = ok and isinstance(fr.attrs['distance'].term, Rat) and fr.attrs['distance'].term.eq(dq.term)
             r4.check(ok, f'__getitem__ {label}', loc(gfi), detail, key='getitem')
     # any sequence of chop calls: chopping in two calls is chopping in one
@@ -462,12 +504,12 @@ def run(tier: str) -> Run:
         kind, seq = w.call(pfi2, [w.scalar('tmin', SEC, 0), w.scalar('tmax', SEC, 4), w.scalar('wmin', ANG, 1, True), w.scalar('wmax', ANG, 3, True)])
         ca = w.chopper('CA', w.scalar('dca', M, 3), (6,), (40,))
         cb = w.chopper('CB', w.scalar('dcb', M, 3), (0,), (9,))
+        src = points(seq.attrs['frames'][0].attrs['subframes'][0])
         kind, out = w.call(sfi, [[ca, cb] if order.startswith('leading') else [cb, ca]], bound=seq)
         val = w.val()
-        src = points(seq.attrs['frames'][0].attrs['subframes'][0])
         moved = clip.shear(src, ca.attrs['distance'].term - seq.attrs['frames'][0].attrs['distance'].term, alpha())
-        both = clip.window(clip.window(moved, items_of(ca.attrs['time_open'])[0].term, items_of(ca.attrs['time_close'])[0].term, val),
-                           items_of(cb.attrs['time_open'])[0].term, items_of(cb.attrs['time_close'])[0].term, val)
+        both = clip.window(clip.window(moved, opens_of(ca)[0].term, closes_of(ca)[0].term, val),
+                           opens_of(cb)[0].term, closes_of(cb)[0].term, val)
         dq = w.scalar('dq', M, 7)
         ok, detail = False, {'outcome': kind}
         if kind == 'return' and isinstance(out, SObj):
@@ -475,6 +517,31 @@ def run(tier: str) -> Run:
             detail = {'outcome': kind}
             if kind == 'return' and isinstance(fr, SObj):
                 want_q = [clip.shear(both, dq.term - ca.attrs['distance'].term, alpha())]
-                ok, detail = match_polygons([points(s_) for s_ in fr.attrs['subframes']], want_q, val, False)
+                ok, detail = match_region([points(s_) for s_ in fr.attrs['subframes']], want_q, val, False)
         r4.check(ok, f'__getitem__ behind two choppers at one distance [{order}]', loc(gfi), detail, key='getitem-colocated')
+    # no history: a sequence that ends at a chopper can be chopped again, twice, by different discs at that same distance (a double-disc
+    # chopper); each answer is the sequence's last frame cut by that disc alone, and the sequence itself stays as it was
+    w = World(repo)
+    kind, seq = w.call(pfi2, [w.scalar('tmin', SEC, 0), w.scalar('tmax', SEC, 4), w.scalar('wmin', ANG, 1, True), w.scalar('wmax', ANG, 3, True)])
+    c0 = w.chopper('C0', w.scalar('dc0', M, 3), (2,), (40,))
+    k0, base = w.call(sfi, [[c0]], bound=seq)
+    ok, detail = False, {'outcome': k0}
+    if k0 == 'return' and isinstance(base, SObj) and base.attrs.get('frames'):
+        val = w.val()
+        last = base.attrs['frames'][-1]
+        last_polys = [points(s_) for s_ in last.attrs['subframes']]
+        before = frames_snapshot(base)
+        da_ = w.chopper('DA', w.scalar('dda', M, 3), (6,), (40,))
+        db_ = w.chopper('DB', w.scalar('ddb', M, 3), (0,), (9,))
+        ka, ra = w.call(sfi, [[da_]], bound=base)
+        kb, rb = w.call(sfi, [[db_]], bound=base)
+        detail = {'outcomes': (ka, kb)}
+        if ka == 'return' and kb == 'return' and isinstance(rb, SObj) and rb.attrs.get('frames'):
+            want_b = [q for q in (clip.window(p_, opens_of(db_)[0].term, closes_of(db_)[0].term, val) for p_ in last_polys)
+                      if clip.dedupe(clip.numeric(q, val))]
+            okb, detb = match_region([points(s_) for s_ in rb.attrs['frames'][-1].attrs['subframes']], want_b, val, False)
+            untouched = frames_snapshot(base) == before
+            ok = okb and untouched and bool(want_b)
+            detail = {'second_answer_is_the_last_frame_cut_by_the_second_disc_alone': okb, 'difference': detb, 'sequence_unchanged': untouched}
+    r4.check(ok, 'chopping a sequence twice by discs at its last distance: no history, sequence unchanged', loc(sfi), detail, key='history')
     return run
